@@ -31,7 +31,14 @@ const maxLiteralSize = (1 << 31) - 512 // int32_max minus some room for the lite
 func MergeSignature(w io.Writer, sig []byte, message io.Reader, withArmor bool, filename string) (err error) {
 	var armorer io.WriteCloser = nopCloseWriter{w}
 	if withArmor {
-		armorer, err = armor.Encode(w, "PGP MESSAGE", nil)
+		// the armor encoder drops the error of its last line, so remember it here
+		sticky := &stickyWriter{w: w}
+		defer func() {
+			if err == nil {
+				err = sticky.err
+			}
+		}()
+		armorer, err = armor.Encode(sticky, "PGP MESSAGE", nil)
 		if err != nil {
 			return err
 		}
@@ -66,6 +73,20 @@ func MergeSignature(w io.Writer, sig []byte, message io.Reader, withArmor bool, 
 		return err
 	}
 	return armorer.Close()
+}
+
+// stickyWriter remembers the first write error
+type stickyWriter struct {
+	w   io.Writer
+	err error
+}
+
+func (s *stickyWriter) Write(d []byte) (int, error) {
+	n, err := s.w.Write(d)
+	if err != nil && s.err == nil {
+		s.err = err
+	}
+	return n, err
 }
 
 // write a one-pass signature header with the fields copied from the detached signature in sig
